@@ -8,6 +8,7 @@
  * iv_tls_total_state_size() bytes, written to under ASan, so an out-of-bounds region aborts the run).
  */
 #include <stdio.h>
+#include <sys/time.h>
 #include <stdlib.h>
 #include <string.h>
 #include <unistd.h>
@@ -65,11 +66,20 @@ static void h_deinit(void *p)
 		}
 }
 
+static void verif_watchdog(int cpu_s, int wall_s)
+{
+	/* a library call that spins is cut by the CPU-time limit (independent of how loaded the machine is); one that sleeps for
+	 * ever by the generous wall-clock limit */
+	struct itimerval it = { { 0, 0 }, { cpu_s, 0 } };
+	setitimer(ITIMER_PROF, &it, NULL);
+	alarm(wall_s);
+}
+
 int main(void)
 {
 	static char line[256];
 
-	alarm(60);
+	verif_watchdog(60, 300);
 	pthr_key_create(&iv_state_key, NULL);
 	while (fgets(line, sizeof(line), stdin) != NULL) {
 		char *op = strtok(line, " \n");
